@@ -90,6 +90,19 @@ theorem cut_file_loads_only_with_data_inside (file : Bytes) (n : Nat) (L : Loade
   simp only [List.length_take] at hlen
   omega
 
+/-- **A file loads only if its declarations are consistent**: the number of bytes implied by `$TOT` and the `$PnB` equals the
+declared DATA extent or the extent minus one (the tolerated one-past-the-end convention), and the load then returns exactly `$TOT`
+events — whatever else the file contains. A corrupted `$TOT`, `$PAR`, `$PnB` or DATA offset that breaks this is refused. -/
+theorem loaded_file_is_consistent (file : Bytes) (L : Loaded) (hL : loadFile file = .ok L) :
+    ∃ (h : Header) (k : Keywords) (db de tot : Int), parseHeader file = .ok h ∧ dataOffsets h L.text = .ok (db, de) ∧ 0 ≤ tot ∧
+      (let need := totalBytes (dtypeOf k.dts) tot.toNat (k.ws.map Int.toNat)
+       (need = de.toNat + 1 - db.toNat ∧ db.toNat ≤ de.toNat + 1) ∨ (need = de.toNat - db.toNat ∧ db.toNat ≤ de.toNat)) ∧
+      L.data.length = tot.toNat := by
+  obtain ⟨h, t, k, hh, _, _, hd⟩ := loadFile_ok file L hL
+  obtain ⟨htext, db, de, tot, hoff, _, _, htot, hread⟩ := loadData_ok file h k L hd
+  have hr := readData_ok file db.toNat de.toNat _ _ _ _ _ _ hread
+  exact ⟨h, k, db, de, tot, hh, by rw [htext]; exact hoff, htot, hr.1, hr.2.2.2⟩
+
 /-! ### the premises are satisfiable: a complete 156-byte FCS2.0 file with two one-byte events (written by the harness's independent writer) -/
 
 def tinyFile : List Nat := [70, 67, 83, 50, 46, 48, 32, 32, 32, 32, 32, 32, 32, 32, 32, 32, 53, 56, 32, 32, 32, 32, 32, 49, 53, 51, 32, 32, 32, 32, 32, 49, 53, 52, 32, 32, 32, 32, 32, 49, 53, 53, 32, 32, 32, 32, 32, 32, 32, 48, 32, 32, 32, 32, 32, 32, 32, 48, 47, 36, 66, 89, 84, 69, 79, 82, 68, 47, 49, 44, 50, 44, 51, 44, 52, 47, 36, 68, 65, 84, 65, 84, 89, 80, 69, 47, 73, 47, 36, 77, 79, 68, 69, 47, 76, 47, 36, 78, 69, 88, 84, 68, 65, 84, 65, 47, 48, 47, 36, 80, 65, 82, 47, 49, 47, 36, 84, 79, 84, 47, 50, 47, 36, 80, 49, 66, 47, 56, 47, 36, 80, 49, 78, 47, 65, 47, 36, 80, 49, 82, 47, 50, 53, 54, 47, 36, 80, 49, 69, 47, 48, 44, 48, 47, 7, 9]
